@@ -301,7 +301,7 @@ def run(rep) -> None:
         corruption(rep, rnd, quick, d)
         loader_classes(rep, d)
         # exit-status law and "rejected writes nothing" on the model
-        cfg = tlc.write_cfg(d / "fs.cfg", {"MaxCmds": 2, "MaxTouches": 99, "Docs": set(fshist.DOCS), "HookKinds": set(fshist.HOOKS),
+        cfg = tlc.write_cfg(d / "fs.cfg", {"CrashPoints": set(), "MaxCmds": 2, "MaxTouches": 99, "Docs": set(fshist.DOCS), "HookKinds": set(fshist.HOOKS),
                                            "Touches": {"u_top", "sib"}, "EmitJson": False},
                             ["ExitLaw", "RejectedWritesNothing"], props=["RejectedStep", "EveryCommandExits"], view="View")
         res = tlc.run_tlc("FsHistoryMC.tla", cfg, workers=NCPU)
